@@ -199,7 +199,10 @@ impl<T: DictionaryAccess> MorphemeList<T> {
 
     pub fn lookup(&mut self, query: &str, subset: InfoSubset) -> SudachiResult<usize> {
         let end_chars = {
-            let input = &mut self.input.borrow_mut().input;
+            let part = &mut *self.input.borrow_mut();
+            // the entries are read with this subset, whatever an earlier analysis collected into this list was read with
+            part.subset = subset;
+            let input = &mut part.input;
             input.reset().push_str(query);
             input.start_build()?;
             input.build(self.dict.grammar())?;
